@@ -137,3 +137,50 @@ fn k2_future_vec_drop_exactly_one() {
     assert!(c0.get() == if idx == 0 { 1 } else { 0 });
     assert!(c1.get() == if idx == 1 { 1 } else { 0 });
 }
+
+// ---- K1: the PollArray / PollVec index helpers that rule P3_{ready,pending}_indexes_* replaces by an index loop ----
+use crate::utils::{PollArray, PollVec};
+
+fn any_state() -> crate::utils::PollState {
+    match kani::any::<u8>() % 3 {
+        0 => crate::utils::PollState::None,
+        1 => crate::utils::PollState::Pending,
+        _ => crate::utils::PollState::Ready,
+    }
+}
+
+/// `ready_indexes()` / `pending_indexes()` yield exactly the indexes i (ascending) with state[i] Ready / Pending
+/// (all 27 states of a PollArray<3>).
+#[kani::proof]
+#[kani::unwind(5)]
+fn k1_pollarray_index_helpers() {
+    let mut st: PollArray<3> = PollArray::new();
+    st[0] = any_state();
+    st[1] = any_state();
+    st[2] = any_state();
+    let mut expect_ready = [false; 3];
+    let mut expect_pending = [false; 3];
+    for i in 0..3 {
+        expect_ready[i] = st[i].is_ready();
+        expect_pending[i] = st[i].is_pending();
+    }
+    let mut seen = [false; 3];
+    let mut last: Option<usize> = None;
+    for i in st.ready_indexes() {
+        assert!(i < 3 && expect_ready[i] && !seen[i]);
+        assert!(last.map_or(true, |l| l < i));
+        seen[i] = true;
+        last = Some(i);
+    }
+    for i in 0..3 {
+        assert!(seen[i] == expect_ready[i]);
+    }
+    let mut seen_p = [false; 3];
+    for i in st.pending_indexes() {
+        assert!(i < 3 && expect_pending[i] && !seen_p[i]);
+        seen_p[i] = true;
+    }
+    for i in 0..3 {
+        assert!(seen_p[i] == expect_pending[i]);
+    }
+}
